@@ -3,7 +3,7 @@
    Real-number laws are stated for the formulas the code computes (Search/BM25R.v, written over
    the literals and message texts regenerated from the Go source in Gen/ParamsBM25.v). *)
 From Coq Require Import ZArith QArith List String Reals.
-From Bluge Require Import Gen.ParamsBM25 Search.BM25R Search.BM25RProofs Search.BM25RWitness Search.BM25Rnd Search.BM25RndProofs Search.BM25F Search.Explain Search.ExplainProofs.
+From Bluge Require Import Gen.ParamsBM25 Search.BM25R Search.BM25RProofs Search.BM25RWitness Search.BM25Rnd Search.BM25RndProofs Search.BM25F Search.BM25FProofs Search.Explain Search.ExplainProofs.
 Import ListNotations.
 Open Scope R_scope.
 
@@ -92,6 +92,15 @@ Print Assumptions float_weak_mono_partial.
 Example float_weak_mono_hypotheses : 0 < len_denominator_rnd rnd64 1 0 7 12.
 Proof. exact float_weak_mono_instance. Qed.
 Print Assumptions float_weak_mono_hypotheses.
+
+(* ---- the field length carried in the norm (bm25.go:47-49, :100) ----
+   ComputeNorm(n) = Float32frombits(uint32(n)); the posting returns float64(float32); Score reads
+   docLen = Float32bits(float32(norm)).  For every length up to the float32 infinity pattern the
+   round trip through Coq's binary64 is the identity (so "a longer field" is measured correctly). *)
+Theorem norm_roundtrip : forall n, (0 <= n <= 255 * 2 ^ 23)%Z ->
+  doc_len_of_norm (f64_of_f32bits (compute_norm_bits n)) = n.
+Proof. exact norm_roundtrip_all. Qed.
+Print Assumptions norm_roundtrip.
 
 (* ---- explanations ---- *)
 (* the explanation's root value is the score, for ANY arithmetic the similarity is run over: in
